@@ -37,6 +37,20 @@ CHECKS = {
         "elements inside tuples.",
         "DESIGN.md section 4, C02",
     ),
+    "C03": (
+        "exploration",
+        "property-based testing (Hypothesis): select-by-label oracle against "
+        "the recorded return values; row-wise recomputation for DataFrames",
+        "Generated runner descriptions (1-3 variables, internal dimensions, "
+        "every var_names/var_dims spelling, Dataset/DataArray/dict returns, "
+        "constants that do or do not name a dimension, resources, attrs) "
+        "through eleven entry points with shuffle and a permuting executor; "
+        "each Dataset is read back point by point by label, each DataFrame "
+        "row is recomputed from its own arguments.",
+        "One value family per swept argument; xarray/pandas selection is "
+        "trusted as the reader.",
+        "DESIGN.md section 4, C03",
+    ),
     "C19": (
         "exploration",
         "property-based testing (Hypothesis) against an exact Fraction "
